@@ -109,4 +109,16 @@ def boxReadFull : Nat → List Nat → Br → Nat → Bytes × Bool × List Nat 
         let r := boxReadFull f ls' b' (n - got.length)
         (got ++ r.1, r.2.1, r.2.2.1, r.2.2.2)
 
+/-- preview.RenderPreview's loop over the box it is handed: Read into a `cap`-byte chunk (2048 in the code) until `n` bytes
+arrived, a Read reports the end, or nothing arrived -/
+def boxReadChunked (cap : Nat) : Nat → List Nat → Br → Nat → Bytes × List Nat × Br
+  | 0, ls, b, _ => ([], ls, b)
+  | f+1, ls, b, n =>
+    if n = 0 then ([], ls, b)
+    else match boxRead ls b (min n cap) with
+      | (none, ls', b') => ([], ls', b')
+      | (some got, ls', b') =>
+        let r := boxReadChunked cap f ls' b' (n - got.length)
+        (got ++ r.1, r.2.1, r.2.2)
+
 end Imeta.Bufio
